@@ -174,26 +174,28 @@ type Known struct {
 }
 
 type Ctx struct {
-	Prop      string
-	Tier      string
-	Seed      uint64
-	KnutBin   string
-	WorkDir   string
-	Drv       *Driver
-	OnlyIndex int    // replay: only this index (-1 = all)
-	OnlyStr   string // replay: only this stream
+	Prop        string
+	Tier        string
+	Seed        uint64
+	KnutBin     string
+	WorkDir     string
+	Drv         *Driver
+	OnlyIndex   int            // replay: only this index (-1 = all)
+	OnlyStr     string         // replay: only this stream
+	ReplayInput map[string]any // replay: the finding's own input, for cases not reproducible from (stream, index)
 
-	Evals      int
-	Compared   int
-	Monitored  int
-	Classes    map[string]int
-	Tags       map[string]int
-	Samples    []any
-	Findings   []Finding
-	Notes      []string
-	Extra      map[string]any
-	start      time.Time
-	maxFinding int
+	Evals        int
+	Compared     int
+	Monitored    int
+	Classes      map[string]int
+	Tags         map[string]int
+	Samples      []any
+	Findings     []Finding
+	FindingCount map[string]int
+	Notes        []string
+	Extra        map[string]any
+	start        time.Time
+	maxFinding   int
 }
 
 func (c *Ctx) Thorough() bool { return c.Tier == "thorough" }
@@ -208,7 +210,7 @@ func (c *Ctx) N(quick, thorough int) int {
 
 // Want tells whether case (stream, index) is to be run (replay filter).
 func (c *Ctx) Want(stream string, index int) bool {
-	if c.OnlyIndex < 0 {
+	if !c.Replay {
 		return true
 	}
 	return stream == c.OnlyStr && index == c.OnlyIndex
@@ -227,7 +229,15 @@ func (c *Ctx) Sample(s any) {
 }
 
 func (c *Ctx) addFinding(f Finding) {
-	if len(c.Findings) < c.maxFinding {
+	// separate caps per kind, so that many disagreements never hide a failing predicate
+	n := 0
+	for _, g := range c.Findings {
+		if g.Kind == f.Kind && (g.Known == "") == (f.Known == "") {
+			n++
+		}
+	}
+	c.FindingCount[f.Kind]++
+	if n < c.maxFinding {
 		c.Findings = append(c.Findings, f)
 	}
 }
